@@ -121,10 +121,27 @@ theorem consumeEscapeLoop_ok (us : Bool) (inp : List Nat) : ∀ (buf : Nat) (nam
           exact ⟨this.1, SSuf.of_tail _ this.2.1⟩
         · cases h
 
+/-- Every string of every property of strings has code points `≤ 0x10FFFF` (kernel evaluation). -/
+theorem stringTables_bnd :
+    Gen.stringTables.all (fun t => (Packed.decodeStrings t.2 t.1).all
+      (fun s => s.all (fun c => decide (c ≤ 0x10FFFF)))) = true := by decide +kernel
+
+/-- All strings have code points `≤ 0x10FFFF`. -/
+def AltsBnd (alts : List (List Nat)) : Prop := ∀ a ∈ alts, Bnd a
+
+theorem stringTable_bnd {idx : Nat} {t : Nat × Nat} (h : Gen.stringTables[idx]? = some t) :
+    AltsBnd (Packed.decodeStrings t.2 t.1) := by
+  have hm : t ∈ Gen.stringTables := List.mem_of_getElem? h
+  have h1 := List.all_eq_true.mp stringTables_bnd t hm
+  intro a ha c hc
+  have h2 := List.all_eq_true.mp h1 a ha
+  have h3 := List.all_eq_true.mp h2 c hc
+  simpa using h3
+
 /-- Postcondition of `propertyEscape`. -/
 def PropOK : PropKind → Prop
   | .charClass ivs => CPS.WF ivs
-  | .stringSet _ => True
+  | .stringSet strs => AltsBnd strs
 
 /-- `try_consume_unicode_property_escape`: the `string_property_sets` index is in range. -/
 theorem propertyEscape_ens (us : Bool) (inp : List Nat) :
@@ -144,8 +161,9 @@ theorem propertyEscape_ens (us : Bool) (inp : List Nat) :
     · have := consumeEscapeLoop_ok us _ _ _ _ _ h
       have hlt : idx < 7 := this.1
       split
-      · simp only [Ens_ok, PropOK, true_and]
-        exact SSuf.of_tail _ this.2.1
+      · rename_i p len hget
+        simp only [Ens_ok, PropOK]
+        exact ⟨stringTable_bnd hget, SSuf.of_tail _ this.2.1⟩
       · rename_i hnone
         exfalso
         have : idx < Gen.stringTables.length := by simpa [Gen.stringTables] using hlt
@@ -351,43 +369,90 @@ theorem collectSingles_wf (alts : List (List Nat)) {set : CPS.IvList} (hs : CPS.
       · exact h
     · exact h
 
-/-- A class set whose code point part is well-formed. -/
-def CSOK (cs : ClassSet) : Prop := CPS.WF cs.cps
+/-- A class set whose code point part is well-formed and whose strings are in range. -/
+def CSOK (cs : ClassSet) : Prop := CPS.WF cs.cps ∧ AltsBnd cs.alts
 
 def OperandOK : Operand → Prop
   | .char c => c ≤ 0x10FFFF
   | .esc cps => CPS.WF cps
   | .cls cs => CSOK cs
-  | .strs _ => True
+  | .strs s => AltsBnd s
+
+theorem csok_empty : CSOK {} := ⟨nil_wf, by simp [AltsBnd]⟩
+
+theorem AltsBnd.filter {l : List (List Nat)} (h : AltsBnd l) (p : List Nat → Bool) :
+    AltsBnd (l.filter p) := fun a ha => h a (List.mem_filter.mp ha).1
+
+theorem AltsBnd.append {l l' : List (List Nat)} (h : AltsBnd l) (h' : AltsBnd l') :
+    AltsBnd (l ++ l') := by
+  intro a ha
+  rcases List.mem_append.mp ha with ha | ha
+  · exact h a ha
+  · exact h' a ha
+
+theorem AltsBnd.single {c : Nat} (h : c ≤ 0x10FFFF) : AltsBnd [[c]] := by
+  intro a ha d hd
+  simp only [List.mem_singleton] at ha
+  subst ha
+  simp only [List.mem_singleton] at hd
+  subst hd
+  exact h
+
+theorem foldAlternativeStrings_bnd {alts : List (List Nat)} (h : AltsBnd alts) :
+    AltsBnd (foldAlternativeStrings alts) := by
+  unfold foldAlternativeStrings
+  suffices hs : ∀ acc, AltsBnd acc → AltsBnd (alts.foldl (fun folded string =>
+      let string := string.map Fold.fold
+      if !folded.contains string then folded ++ [string] else folded) acc) from hs [] (by simp [AltsBnd])
+  induction alts with
+  | nil => intro acc ha; exact ha
+  | cons a as ih =>
+    intro acc ha
+    simp only [List.foldl_cons]
+    apply ih (fun x hx => h x (by simp [hx]))
+    split
+    · refine ha.append ?_
+      intro x hx d hd
+      simp only [List.mem_singleton] at hx
+      subst hx
+      obtain ⟨e, he, rfl⟩ := List.mem_map.mp hd
+      exact C10.fold_le_max (h a (by simp) e he)
+    · exact ha
 
 theorem unionOperand_ok {self : ClassSet} {o : Operand} (hs : CSOK self) (ho : OperandOK o) :
     CSOK (self.unionOperand o) := by
   cases o with
-  | char c => exact C12.addOne_wf hs ho
-  | esc cps => exact C12.addSet_wf hs ho
-  | cls c => exact C12.addSet_wf hs ho
-  | strs s => exact hs
+  | char c => exact ⟨C12.addOne_wf hs.1 ho, hs.2⟩
+  | esc cps => exact ⟨C12.addSet_wf hs.1 ho, hs.2⟩
+  | cls c => exact ⟨C12.addSet_wf hs.1 ho.1, hs.2.append ho.2⟩
+  | strs s => exact ⟨hs.1, hs.2.append ho⟩
 
 theorem intersectOperand_ok {self : ClassSet} {o : Operand} (hs : CSOK self) (ho : OperandOK o) :
     CSOK (self.intersectOperand o) := by
   cases o with
   | char c =>
     simp only [ClassSet.intersectOperand, CSOK]
-    split
-    · exact single_wf ho
-    · exact nil_wf
-  | esc cps => exact C12.intersect_wf hs ho
+    refine ⟨?_, ?_⟩
+    · split
+      · exact single_wf ho
+      · exact nil_wf
+    · split
+      · exact AltsBnd.single ho
+      · simp [AltsBnd]
+  | esc cps => exact ⟨C12.intersect_wf hs.1 ho, hs.2.filter _⟩
   | cls c =>
-    exact C12.addSet_wf (C12.intersect_wf hs ho) (collectSingles_wf _ hs)
-  | strs s => exact collectSingles_wf _ hs
+    exact ⟨C12.addSet_wf (C12.intersect_wf hs.1 ho.1) (collectSingles_wf _ hs.1),
+      (hs.2.filter _).append (hs.2.filter _)⟩
+  | strs s => exact ⟨collectSingles_wf _ hs.1, hs.2.filter _⟩
 
 theorem subtractOperand_ok {self : ClassSet} {o : Operand} (hs : CSOK self) (ho : OperandOK o) :
     CSOK (self.subtractOperand o) := by
   cases o with
-  | char c => exact C12.remove_wf hs (single_wf ho)
-  | esc cps => exact C12.remove_wf hs ho
-  | cls c => exact C12.remove_wf (C12.remove_wf hs (collectSingles_wf _ hs)) ho
-  | strs s => exact C12.remove_wf hs (collectSingles_wf _ hs)
+  | char c => exact ⟨C12.remove_wf hs.1 (single_wf ho), hs.2.filter _⟩
+  | esc cps => exact ⟨C12.remove_wf hs.1 ho, hs.2.filter _⟩
+  | cls c =>
+    exact ⟨C12.remove_wf (C12.remove_wf hs.1 (collectSingles_wf _ hs.1)) ho.1, (hs.2.filter _).filter _⟩
+  | strs s => exact ⟨C12.remove_wf hs.1 (collectSingles_wf _ hs.1), hs.2.filter _⟩
 
 theorem closeClassSetOperand_ok (icase : Bool) {o : Operand} (ho : OperandOK o) :
     OperandOK (closeClassSetOperand icase o) := by
@@ -397,8 +462,33 @@ theorem closeClassSetOperand_ok (icase : Bool) {o : Operand} (ho : OperandOK o) 
   · cases o with
     | char c => exact C10.add_icase_wf (C12.addOne_wf nil_wf ho)
     | esc cps => exact C10.add_icase_wf ho
-    | cls c => exact C10.add_icase_wf ho
-    | strs s => trivial
+    | cls c => exact ⟨C10.add_icase_wf ho.1, foldAlternativeStrings_bnd ho.2⟩
+    | strs s => exact foldAlternativeStrings_bnd ho
+
+theorem foldl_addOne_wf (l : List Nat) (hl : ∀ c ∈ l, c ≤ 0x10FFFF) :
+    ∀ {s : CPS.IvList}, CPS.WF s → CPS.WF (l.foldl CPS.addOne s) := by
+  induction l with
+  | nil => intro s hs; exact hs
+  | cons c cs ih =>
+    intro s hs
+    simp only [List.foldl_cons]
+    exact ih (fun d hd => hl d (by simp [hd])) (C12.addOne_wf hs (hl c (by simp)))
+
+theorem single?_some {a : List Nat} {c : Nat} (h : single? a = some c) : a = [c] := by
+  unfold single? at h
+  split at h
+  · cases h; rfl
+  · cases h
+
+/-- `absorb_single_characters` keeps the set well-formed (the absorbed characters are in range). -/
+theorem absorbSingleCharacters_ok {self : ClassSet} (hs : CSOK self) :
+    CSOK self.absorbSingleCharacters := by
+  refine ⟨foldl_addOne_wf _ ?_ hs.1, hs.2.filter _⟩
+  intro c hc
+  obtain ⟨a, ha, hac⟩ := List.mem_filterMap.mp hc
+  have := single?_some hac
+  subst this
+  exact hs.2 _ ha c (by simp)
 
 /-- The node of a class set: `POut`, no groups. -/
 theorem altsIntoNode_leaf (alts : List (List Nat)) (icase : Bool) : Leaf (altsIntoNode alts icase) := by
@@ -409,7 +499,7 @@ theorem makeAlt_pair_leaf {a b : Node} (ha : Leaf a) (hb : Leaf b) : Leaf (makeA
   rw [makeAlt_numGroups]
   simp [numGroupsList, ha.2, hb.2]
 
-theorem nonemptyNode_leaf {self : ClassSet} (hs : CSOK self) (icase negateSet : Bool) :
+theorem nonemptyNode_leaf {self : ClassSet} (hs : CPS.WF self.cps) (icase negateSet : Bool) :
     Leaf (self.nonemptyNode icase negateSet) := by
   unfold ClassSet.nonemptyNode
   generalize hcp : (if icase then Fold.addIcaseCodePoints self.cps else self.cps) = cp
@@ -424,9 +514,11 @@ theorem nonemptyNode_leaf {self : ClassSet} (hs : CSOK self) (icase negateSet : 
 theorem classSetNode_leaf {self : ClassSet} (hs : CSOK self) (icase negateSet : Bool) :
     Leaf (self.node icase negateSet) := by
   unfold ClassSet.node
-  have h : Leaf (ClassSet.nonemptyNode { cps := self.cps, alts := self.alts.filter (fun s => !s.isEmpty) }
+  have ha := absorbSingleCharacters_ok hs
+  generalize self.absorbSingleCharacters = s at ha
+  have h : Leaf (ClassSet.nonemptyNode { s with alts := s.alts.filter (fun s => !s.isEmpty) }
       icase negateSet) :=
-    nonemptyNode_leaf (show CSOK { cps := self.cps, alts := self.alts.filter (fun s => !s.isEmpty) } from hs) _ _
+    nonemptyNode_leaf (self := { s with alts := s.alts.filter (fun s => !s.isEmpty) }) ha.1 _ _
   simp only
   split
   · exact makeAlt_pair_leaf h (by simp [Leaf, POut, numGroups])
@@ -478,25 +570,24 @@ theorem classStringLoop_ens (unicode hn : Bool) (fuel : Nat) (inp : List Nat) (a
     · exact ha' c h
     · exact h1.1
 
-theorem classStringSet_ens (neg : Bool) (alts : List (List Nat)) (set : ClassSet)
-    (ha : ∀ a ∈ alts, Bnd a) (hs : CSOK set) : Ens (classStringSet neg alts set) CSOK := by
-  fun_induction classStringSet neg alts set
-  all_goals try simp only [*]
-  all_goals try (simp; done)
-  · exact hs
-  · rename_i c ih
-    refine ih (fun a h => ha a (by simp [h])) ?_
-    exact C12.addOne_wf hs (ha [c] (by simp) c (by simp))
-  · rename_i ih
-    simp only [if_true]
-    have : neg = false := by cases neg <;> simp_all
-    subst this
-    exact ih (fun a h => ha a (by simp [h])) hs
-  · rename_i ih
-    simp only [Bool.false_eq_true, if_false]
-    have : neg = false := by cases neg <;> simp_all
-    subst this
-    exact ih (fun a h => ha a (by simp [h])) hs
+theorem classStringSet_ok (alts : List (List Nat)) (set : ClassSet)
+    (ha : ∀ a ∈ alts, Bnd a) (hs : CSOK set) : CSOK (classStringSet alts set) := by
+  induction alts generalizing set with
+  | nil => simpa [classStringSet] using hs
+  | cons a rest ih =>
+    have hr : ∀ a ∈ rest, Bnd a := fun a h => ha a (by simp [h])
+    unfold classStringSet
+    split
+    · rename_i c
+      exact ih _ hr ⟨C12.addOne_wf hs.1 (ha [c] (by simp) c (by simp)), hs.2⟩
+    · simp only
+      split
+      · refine ih _ hr ⟨hs.1, hs.2.append ?_⟩
+        intro x hx
+        simp only [List.mem_singleton] at hx
+        subst hx
+        exact ha _ (by simp)
+      · exact ih _ hr hs
 
 open Regress Regress.IR
 
@@ -509,17 +600,17 @@ def CSPre (fuel : Nat) (k : Nat) (st : CSt) : Prop :=
   2 * st.inp.length + k ≤ fuel ∧ Bnd st.inp ∧ st.depth ≤ Gen.MAX_NESTING_DEPTH
 
 structure ClassSetIH (fl : Flags) (hn : Bool) (fuel : Nat) : Prop where
-  expr : ∀ neg st, CSPre fuel 2 st → Ens (classSetExpression fl hn fuel neg st) (CSPost st)
-  union : ∀ neg st r, CSPre fuel 2 st → CSOK r → Ens (classSetUnion fl hn fuel neg st r) (CSPost st)
-  inter : ∀ neg st r, CSPre fuel 2 st → CSOK r → Ens (classSetIntersection fl hn fuel neg st r) (CSPost st)
-  sub : ∀ neg st r, CSPre fuel 2 st → CSOK r → Ens (classSetSubtraction fl hn fuel neg st r) (CSPost st)
-  operand : ∀ neg st, CSPre fuel 1 st → Ens (classSetOperand fl hn fuel neg st) (OpPost st)
+  expr : ∀ st, CSPre fuel 2 st → Ens (classSetExpression fl hn fuel st) (CSPost st)
+  union : ∀ st r, CSPre fuel 2 st → CSOK r → Ens (classSetUnion fl hn fuel st r) (CSPost st)
+  inter : ∀ st r, CSPre fuel 2 st → CSOK r → Ens (classSetIntersection fl hn fuel st r) (CSPost st)
+  sub : ∀ st r, CSPre fuel 2 st → CSOK r → Ens (classSetSubtraction fl hn fuel st r) (CSPost st)
+  operand : ∀ st, CSPre fuel 1 st → Ens (classSetOperand fl hn fuel st) (OpPost st)
 
-theorem classSetOperand_step (fl : Flags) (hn : Bool) (fuel : Nat) (ih : ClassSetIH fl hn fuel) (neg : Bool) (st : CSt)
-    (hp : CSPre (fuel + 1) 1 st) : Ens (classSetOperand fl hn (fuel + 1) neg st) (OpPost st) := by
+theorem classSetOperand_step (fl : Flags) (hn : Bool) (fuel : Nat) (ih : ClassSetIH fl hn fuel) (st : CSt)
+    (hp : CSPre (fuel + 1) 1 st) : Ens (classSetOperand fl hn (fuel + 1) st) (OpPost st) := by
   obtain ⟨hf, hb, hd⟩ := hp
   generalize hfu : fuel + 1 = f
-  fun_cases classSetOperand fl hn f neg st
+  fun_cases classSetOperand fl hn f st
   all_goals try simp only [*]
   all_goals try (simp; done)
   all_goals try (simp at hfu; done)
@@ -538,8 +629,8 @@ theorem classSetOperand_step (fl : Flags) (hn : Bool) (fuel : Nat) (ih : ClassSe
     have hd' : st.depth + 1 ≤ Gen.MAX_NESTING_DEPTH := by simp_all; omega
     have hl := hs.length_le
     simp only [List.length_cons] at hf
-    exact (ih.expr (invert || neg) ⟨rest, st.depth + 1⟩ ⟨by show 2 * rest.length + 2 ≤ fuel; omega, hb.tail.suf hs, hd'⟩).error_of_eq ‹_›
-  · rename_i ec rest1 _ invert rest hm result st1 _ _ _ _ _
+    exact (ih.expr ⟨rest, st.depth + 1⟩ ⟨by show 2 * rest.length + 2 ≤ fuel; omega, hb.tail.suf hs, hd'⟩).error_of_eq ‹_›
+  · rename_i ec rest1 _ invert rest hm result st1 _ _ _ _ _ _
     have hs : rest <:+ rest1 := by
       split at hm <;> cases hm
       · exact suf_cons _ (suf_refl _)
@@ -547,14 +638,15 @@ theorem classSetOperand_step (fl : Flags) (hn : Bool) (fuel : Nat) (ih : ClassSe
     have hd' : st.depth + 1 ≤ Gen.MAX_NESTING_DEPTH := by simp_all; omega
     have hl := hs.length_le
     simp only [List.length_cons] at hf
-    have h1 := (ih.expr (invert || neg) ⟨rest, st.depth + 1⟩ ⟨by show 2 * rest.length + 2 ≤ fuel; omega, hb.tail.suf hs, hd'⟩).ok_of_eq
-      ‹classSetExpression _ _ _ _ _ = _›
+    have h1 := (ih.expr ⟨rest, st.depth + 1⟩ ⟨by show 2 * rest.length + 2 ≤ fuel; omega, hb.tail.suf hs, hd'⟩).ok_of_eq
+      ‹classSetExpression _ _ _ _ = _›
     simp only [CSPost] at h1
     simp only [Ens_ok, OpPost, OperandOK, hinp]
     refine ⟨?_, SSuf.of_tail _ (h1.2.1.1.trans hs), by rw [h1.2.2]; show st.depth + 1 - 1 = st.depth; omega⟩
     show CSOK (if invert = true then _ else result)
     split
-    · exact C12.inverted_wf (icase_wf _ h1.1)
+    · have ha := absorbSingleCharacters_ok h1.1
+      exact ⟨C12.inverted_wf (icase_wf _ ha.1), ha.2⟩
     · exact h1.1
   -- `\q{`
   · have hb' : Bnd _ := hb.tail.tail.tail
@@ -565,11 +657,7 @@ theorem classSetOperand_step (fl : Flags) (hn : Bool) (fuel : Nat) (ih : ClassSe
   · have hb' : Bnd _ := hb.tail.tail.tail
     have h1 := Ens.ok_of_eq (classStringLoop_ens _ _ _ _ [] [] (Nat.lt_succ_self _) hb'
       (by simp) (by simp [Bnd])) ‹classStringLoop _ _ _ _ _ _ = _›
-    exact (classStringSet_ens neg _ {} h1.1 nil_wf).error_of_eq ‹_›
-  · have hb' : Bnd _ := hb.tail.tail.tail
-    have h1 := Ens.ok_of_eq (classStringLoop_ens _ _ _ _ [] [] (Nat.lt_succ_self _) hb'
-      (by simp) (by simp [Bnd])) ‹classStringLoop _ _ _ _ _ _ = _›
-    have h2 := (classStringSet_ens neg _ {} h1.1 nil_wf).ok_of_eq ‹classStringSet _ _ _ = _›
+    have h2 : CSOK (classStringSet _ {}) := classStringSet_ok _ {} h1.1 csok_empty
     simp only [Ens_ok, OpPost, OperandOK, hinp]
     exact ⟨h2, SSuf.of_tail _ (suf_cons _ (suf_cons _ h1.2.1)), trivial⟩
   -- `\p`
@@ -579,7 +667,7 @@ theorem classSetOperand_step (fl : Flags) (hn : Bool) (fuel : Nat) (ih : ClassSe
     exact ⟨h1.1, SSuf.of_tail _ (suf_cons _ h1.2.1), trivial⟩
   · have h1 := (propertyEscape_ens _ _).ok_of_eq ‹propertyEscape _ _ = _›
     simp only [Ens_ok, OpPost, OperandOK, hinp]
-    exact ⟨trivial, SSuf.of_tail _ (suf_cons _ h1.2.1), trivial⟩
+    exact ⟨h1.1, SSuf.of_tail _ (suf_cons _ h1.2.1), trivial⟩
   -- `\P`
   · exact (propertyEscape_ens _ _).error_of_eq ‹_›
   · have h1 := (propertyEscape_ens _ _).ok_of_eq ‹propertyEscape _ _ = _›
@@ -617,14 +705,14 @@ theorem CSPre.le {fuel : Nat} {st : CSt} (h : CSPre fuel 2 st) : CSPre fuel 1 st
   ⟨by have := h.1; omega, h.2.1, h.2.2⟩
 
 theorem range_ok {r : ClassSet} (hr : CSOK r) {f l : Nat} (hl : l ≤ 0x10FFFF) (hfl : ¬ f > l) :
-    CSOK { cps := CPS.add r.cps { first := f, last := l }, alts := r.alts } :=
-  C12.add_wf hr ⟨by simp only; omega, hl⟩
+    CSOK { r with cps := CPS.add r.cps { first := f, last := l } } :=
+  ⟨C12.add_wf hr.1 ⟨by simp only; omega, hl⟩, hr.2⟩
 
-theorem classSetUnion_step (fl : Flags) (hn : Bool) (fuel : Nat) (ih : ClassSetIH fl hn fuel) (neg : Bool) (st : CSt)
+theorem classSetUnion_step (fl : Flags) (hn : Bool) (fuel : Nat) (ih : ClassSetIH fl hn fuel) (st : CSt)
     (r : ClassSet) (hp : CSPre (fuel + 1) 2 st) (hr : CSOK r) :
-    Ens (classSetUnion fl hn (fuel + 1) neg st r) (CSPost st) := by
+    Ens (classSetUnion fl hn (fuel + 1) st r) (CSPost st) := by
   generalize hfu : fuel + 1 = f
-  fun_cases classSetUnion fl hn f neg st r
+  fun_cases classSetUnion fl hn f st r
   all_goals try simp only [*]
   all_goals try (simp; done)
   all_goals try (simp at hfu; done)
@@ -632,147 +720,147 @@ theorem classSetUnion_step (fl : Flags) (hn : Bool) (fuel : Nat) (ih : ClassSetI
   all_goals (have hinp := ‹st.inp = _›)
   · simp only [Ens_ok, CSPost, hinp]
     exact ⟨hr, by ssuf_tac, trivial⟩
-  · exact (ih.operand _ _ hp.operand).error_of_eq ‹_›
+  · exact (ih.operand _ hp.operand).error_of_eq ‹_›
   · rename_i st1 inp2 hst1 _ _ _ _ _
-    have h1 := (ih.operand neg st hp.operand).ok_of_eq ‹classSetOperand fl hn fuel neg st = _›
+    have h1 := (ih.operand st hp.operand).ok_of_eq ‹classSetOperand fl hn fuel st = _›
     simp only [OpPost] at h1
     have hs : SSuf inp2 st.inp := SSuf.suf_trans (hst1 ▸ suf_cons _ (suf_refl _)) h1.2.1
-    exact (ih.operand neg ⟨inp2, st1.depth⟩ (hp.step (st' := ⟨inp2, st1.depth⟩) hs h1.2.2).le).error_of_eq ‹_›
+    exact (ih.operand ⟨inp2, st1.depth⟩ (hp.step (st' := ⟨inp2, st1.depth⟩) hs h1.2.2).le).error_of_eq ‹_›
   · rename_i st1 inp2 hst1 f l st2 hfl _ _ _
-    have h1 := (ih.operand neg st hp.operand).ok_of_eq ‹classSetOperand fl hn fuel neg st = _›
+    have h1 := (ih.operand st hp.operand).ok_of_eq ‹classSetOperand fl hn fuel st = _›
     simp only [OpPost] at h1
     have hs : SSuf inp2 st.inp := SSuf.suf_trans (hst1 ▸ suf_cons _ (suf_refl _)) h1.2.1
     have hp2 := hp.step (st' := ⟨inp2, st1.depth⟩) hs h1.2.2
-    have h2 := (ih.operand neg ⟨inp2, st1.depth⟩ hp2.le).ok_of_eq ‹classSetOperand fl hn fuel neg ⟨_, _⟩ = _›
+    have h2 := (ih.operand ⟨inp2, st1.depth⟩ hp2.le).ok_of_eq ‹classSetOperand fl hn fuel ⟨_, _⟩ = _›
     simp only [OpPost, OperandOK] at h2
     have hs2 : SSuf st2.inp st.inp := h2.2.1.trans hs
     have hd2 : st2.depth = st.depth := h2.2.2.trans h1.2.2
-    refine (ih.union neg st2 _ (hp.step hs2 hd2) (range_ok hr h2.1 hfl)).mono ?_
+    refine (ih.union st2 _ (hp.step hs2 hd2) (range_ok hr h2.1 hfl)).mono ?_
     exact fun p hp' => hp'.trans hs2.1 hd2
-  · have h1 := (ih.operand neg st hp.operand).ok_of_eq ‹classSetOperand fl hn fuel neg st = _›
+  · have h1 := (ih.operand st hp.operand).ok_of_eq ‹classSetOperand fl hn fuel st = _›
     simp only [OpPost] at h1
-    refine (ih.union neg _ _ (hp.step h1.2.1 h1.2.2) (unionOperand_ok hr h1.1)).mono ?_
+    refine (ih.union _ _ (hp.step h1.2.1 h1.2.2) (unionOperand_ok hr h1.1)).mono ?_
     exact fun p hp' => hp'.trans h1.2.1.1 h1.2.2
 
 open Regress Regress.IR
 
-theorem classSetIntersection_step (fl : Flags) (hn : Bool) (fuel : Nat) (ih : ClassSetIH fl hn fuel) (neg : Bool) (st : CSt)
+theorem classSetIntersection_step (fl : Flags) (hn : Bool) (fuel : Nat) (ih : ClassSetIH fl hn fuel) (st : CSt)
     (r : ClassSet) (hp : CSPre (fuel + 1) 2 st) (hr : CSOK r) :
-    Ens (classSetIntersection fl hn (fuel + 1) neg st r) (CSPost st) := by
+    Ens (classSetIntersection fl hn (fuel + 1) st r) (CSPost st) := by
   generalize hfu : fuel + 1 = f
-  fun_cases classSetIntersection fl hn f neg st r
+  fun_cases classSetIntersection fl hn f st r
   all_goals try simp only [*]
   all_goals try (simp; done)
   all_goals try (simp at hfu; done)
   all_goals try (cases hfu)
-  · exact (ih.operand _ _ hp.operand).error_of_eq ‹_›
+  · exact (ih.operand _ hp.operand).error_of_eq ‹_›
   · rename_i first st1 ec rest1 hst1 _ _ _ _
-    have h1 := (ih.operand neg st hp.operand).ok_of_eq ‹classSetOperand fl hn fuel neg st = _›
+    have h1 := (ih.operand st hp.operand).ok_of_eq ‹classSetOperand fl hn fuel st = _›
     simp only [OpPost] at h1
     simp only [Ens_ok, CSPost]
     refine ⟨intersectOperand_ok hr (closeClassSetOperand_ok _ h1.1), ?_, h1.2.2⟩
     exact SSuf.suf_trans (hst1 ▸ suf_cons _ (suf_refl _)) h1.2.1
   · rename_i first st1 ec _ _ rest2 hst1 _ _ _
-    have h1 := (ih.operand neg st hp.operand).ok_of_eq ‹classSetOperand fl hn fuel neg st = _›
+    have h1 := (ih.operand st hp.operand).ok_of_eq ‹classSetOperand fl hn fuel st = _›
     simp only [OpPost] at h1
     have hs : SSuf rest2 st.inp :=
       SSuf.suf_trans (hst1 ▸ suf_cons _ (suf_cons _ (suf_refl _))) h1.2.1
-    refine (ih.inter neg ⟨rest2, st1.depth⟩ _ (hp.step (st' := ⟨rest2, st1.depth⟩) hs h1.2.2)
+    refine (ih.inter ⟨rest2, st1.depth⟩ _ (hp.step (st' := ⟨rest2, st1.depth⟩) hs h1.2.2)
       (intersectOperand_ok hr (closeClassSetOperand_ok _ h1.1))).mono ?_
     exact fun p hp' => hp'.trans hs.1 h1.2.2
 
-theorem classSetSubtraction_step (fl : Flags) (hn : Bool) (fuel : Nat) (ih : ClassSetIH fl hn fuel) (neg : Bool) (st : CSt)
+theorem classSetSubtraction_step (fl : Flags) (hn : Bool) (fuel : Nat) (ih : ClassSetIH fl hn fuel) (st : CSt)
     (r : ClassSet) (hp : CSPre (fuel + 1) 2 st) (hr : CSOK r) :
-    Ens (classSetSubtraction fl hn (fuel + 1) neg st r) (CSPost st) := by
+    Ens (classSetSubtraction fl hn (fuel + 1) st r) (CSPost st) := by
   generalize hfu : fuel + 1 = f
-  fun_cases classSetSubtraction fl hn f neg st r
+  fun_cases classSetSubtraction fl hn f st r
   all_goals try simp only [*]
   all_goals try (simp; done)
   all_goals try (simp at hfu; done)
   all_goals try (cases hfu)
-  · exact (ih.operand _ _ hp.operand).error_of_eq ‹_›
+  · exact (ih.operand _ hp.operand).error_of_eq ‹_›
   · rename_i first st1 ec rest1 hst1 _ _ _
-    have h1 := (ih.operand neg st hp.operand).ok_of_eq ‹classSetOperand fl hn fuel neg st = _›
+    have h1 := (ih.operand st hp.operand).ok_of_eq ‹classSetOperand fl hn fuel st = _›
     simp only [OpPost] at h1
     simp only [Ens_ok, CSPost]
     refine ⟨subtractOperand_ok hr (closeClassSetOperand_ok _ h1.1), ?_, h1.2.2⟩
     exact SSuf.suf_trans (hst1 ▸ suf_cons _ (suf_refl _)) h1.2.1
   · rename_i first st1 ec _ _ rest2 hst1 _ _
-    have h1 := (ih.operand neg st hp.operand).ok_of_eq ‹classSetOperand fl hn fuel neg st = _›
+    have h1 := (ih.operand st hp.operand).ok_of_eq ‹classSetOperand fl hn fuel st = _›
     simp only [OpPost] at h1
     have hs : SSuf rest2 st.inp :=
       SSuf.suf_trans (hst1 ▸ suf_cons _ (suf_cons _ (suf_refl _))) h1.2.1
-    refine (ih.sub neg ⟨rest2, st1.depth⟩ _ (hp.step (st' := ⟨rest2, st1.depth⟩) hs h1.2.2)
+    refine (ih.sub ⟨rest2, st1.depth⟩ _ (hp.step (st' := ⟨rest2, st1.depth⟩) hs h1.2.2)
       (subtractOperand_ok hr (closeClassSetOperand_ok _ h1.1))).mono ?_
     exact fun p hp' => hp'.trans hs.1 h1.2.2
 
 open Regress Regress.IR
 
-theorem classSetExpression_step (fl : Flags) (hn : Bool) (fuel : Nat) (ih : ClassSetIH fl hn fuel) (neg : Bool) (st : CSt)
+theorem classSetExpression_step (fl : Flags) (hn : Bool) (fuel : Nat) (ih : ClassSetIH fl hn fuel) (st : CSt)
     (hp : CSPre (fuel + 1) 2 st) :
-    Ens (classSetExpression fl hn (fuel + 1) neg st) (CSPost st) := by
+    Ens (classSetExpression fl hn (fuel + 1) st) (CSPost st) := by
   generalize hfu : fuel + 1 = f
-  fun_cases classSetExpression fl hn f neg st
+  fun_cases classSetExpression fl hn f st
   all_goals try simp only [*]
   all_goals try (simp; done)
   all_goals try (simp at hfu; done)
   all_goals try (cases hfu)
   · simp only [Ens_ok, CSPost, ‹st.inp = _›]
-    exact ⟨nil_wf, by ssuf_tac, trivial⟩
-  · exact (ih.operand _ _ hp.operand).error_of_eq ‹_›
+    exact ⟨csok_empty, by ssuf_tac, trivial⟩
+  · exact (ih.operand _ hp.operand).error_of_eq ‹_›
   · rename_i _ _ _ _ first st1 ec rest1 hst1 _ _ _
-    have h1 := (ih.operand neg st hp.operand).ok_of_eq ‹classSetOperand fl hn fuel neg st = _›
+    have h1 := (ih.operand st hp.operand).ok_of_eq ‹classSetOperand fl hn fuel st = _›
     simp only [OpPost] at h1
     simp only [Ens_ok, CSPost]
-    refine ⟨unionOperand_ok (show CSOK {} from nil_wf) h1.1, ?_, h1.2.2⟩
+    refine ⟨unionOperand_ok csok_empty h1.1, ?_, h1.2.2⟩
     exact SSuf.suf_trans (hst1 ▸ suf_cons _ (suf_refl _)) h1.2.1
   · rename_i _ _ _ _ first st1 ec _ _ rest2 hst1 _ _
-    have h1 := (ih.operand neg st hp.operand).ok_of_eq ‹classSetOperand fl hn fuel neg st = _›
+    have h1 := (ih.operand st hp.operand).ok_of_eq ‹classSetOperand fl hn fuel st = _›
     simp only [OpPost] at h1
     have hs : SSuf rest2 st.inp :=
       SSuf.suf_trans (hst1 ▸ suf_cons _ (suf_cons _ (suf_refl _))) h1.2.1
-    refine (ih.inter neg ⟨rest2, st1.depth⟩ _ (hp.step (st' := ⟨rest2, st1.depth⟩) hs h1.2.2)
-      (unionOperand_ok (show CSOK {} from nil_wf) (closeClassSetOperand_ok _ h1.1))).mono ?_
+    refine (ih.inter ⟨rest2, st1.depth⟩ _ (hp.step (st' := ⟨rest2, st1.depth⟩) hs h1.2.2)
+      (unionOperand_ok csok_empty (closeClassSetOperand_ok _ h1.1))).mono ?_
     exact fun p hp' => hp'.trans hs.1 h1.2.2
   · -- a single `&` after the first operand: not consumed, the union loop reads it
-    have h1 := (ih.operand neg st hp.operand).ok_of_eq ‹classSetOperand fl hn fuel neg st = _›
+    have h1 := (ih.operand st hp.operand).ok_of_eq ‹classSetOperand fl hn fuel st = _›
     simp only [OpPost] at h1
-    refine (ih.union neg _ _ (hp.step h1.2.1 h1.2.2)
-      (unionOperand_ok (show CSOK {} from nil_wf) h1.1)).mono ?_
+    refine (ih.union _ _ (hp.step h1.2.1 h1.2.2)
+      (unionOperand_ok csok_empty h1.1)).mono ?_
     exact fun p hp' => hp'.trans h1.2.1.1 h1.2.2
   · rename_i _ _ _ _ first st1 ec _ _ _ inp2 hst1 _ _
-    have h1 := (ih.operand neg st hp.operand).ok_of_eq ‹classSetOperand fl hn fuel neg st = _›
+    have h1 := (ih.operand st hp.operand).ok_of_eq ‹classSetOperand fl hn fuel st = _›
     simp only [OpPost] at h1
     have hs : SSuf inp2 st.inp :=
       SSuf.suf_trans (hst1 ▸ suf_cons _ (suf_cons _ (suf_refl _))) h1.2.1
-    refine (ih.sub neg ⟨inp2, st1.depth⟩ _ (hp.step (st' := ⟨inp2, st1.depth⟩) hs h1.2.2)
-      (unionOperand_ok (show CSOK {} from nil_wf) (closeClassSetOperand_ok _ h1.1))).mono ?_
+    refine (ih.sub ⟨inp2, st1.depth⟩ _ (hp.step (st' := ⟨inp2, st1.depth⟩) hs h1.2.2)
+      (unionOperand_ok csok_empty (closeClassSetOperand_ok _ h1.1))).mono ?_
     exact fun p hp' => hp'.trans hs.1 h1.2.2
   · rename_i _ _ _ _ st1 ec rest1 hst1 _ _ _ f e _ _ _ _
-    have h1 := (ih.operand neg st hp.operand).ok_of_eq ‹classSetOperand fl hn fuel neg st = _›
+    have h1 := (ih.operand st hp.operand).ok_of_eq ‹classSetOperand fl hn fuel st = _›
     simp only [OpPost] at h1
     have hs : SSuf rest1 st.inp := SSuf.suf_trans (hst1 ▸ suf_cons _ (suf_refl _)) h1.2.1
-    exact (ih.operand neg ⟨rest1, st1.depth⟩
+    exact (ih.operand ⟨rest1, st1.depth⟩
       (hp.step (st' := ⟨rest1, st1.depth⟩) hs h1.2.2).le).error_of_eq ‹_›
   · rename_i _ _ _ _ st1 ec rest1 hst1 _ _ _ f l st2 hfl _ _ _ _
-    have h1 := (ih.operand neg st hp.operand).ok_of_eq ‹classSetOperand fl hn fuel neg st = _›
+    have h1 := (ih.operand st hp.operand).ok_of_eq ‹classSetOperand fl hn fuel st = _›
     simp only [OpPost] at h1
     have hs : SSuf rest1 st.inp := SSuf.suf_trans (hst1 ▸ suf_cons _ (suf_refl _)) h1.2.1
     have hp2 := hp.step (st' := ⟨rest1, st1.depth⟩) hs h1.2.2
-    have h2 := (ih.operand neg ⟨rest1, st1.depth⟩ hp2.le).ok_of_eq
-      ‹classSetOperand fl hn fuel neg ⟨_, _⟩ = _›
+    have h2 := (ih.operand ⟨rest1, st1.depth⟩ hp2.le).ok_of_eq
+      ‹classSetOperand fl hn fuel ⟨_, _⟩ = _›
     simp only [OpPost, OperandOK] at h2
     have hs2 : SSuf st2.inp st.inp := h2.2.1.trans hs
     have hd2 : st2.depth = st.depth := h2.2.2.trans h1.2.2
     simp only [if_false]
-    refine (ih.union neg st2 _ (hp.step hs2 hd2)
-      (range_ok (show CSOK {} from nil_wf) h2.1 hfl)).mono ?_
+    refine (ih.union st2 _ (hp.step hs2 hd2)
+      (range_ok csok_empty h2.1 hfl)).mono ?_
     exact fun p hp' => hp'.trans hs2.1 hd2
   · rename_i _ _ _ _ first st1 _ _ _ _ _ _ _ _
-    have h1 := (ih.operand neg st hp.operand).ok_of_eq ‹classSetOperand fl hn fuel neg st = _›
+    have h1 := (ih.operand st hp.operand).ok_of_eq ‹classSetOperand fl hn fuel st = _›
     simp only [OpPost] at h1
-    refine (ih.union neg _ _ (hp.step h1.2.1 h1.2.2)
-      (unionOperand_ok (show CSOK {} from nil_wf) h1.1)).mono ?_
+    refine (ih.union _ _ (hp.step h1.2.1 h1.2.2)
+      (unionOperand_ok csok_empty h1.1)).mono ?_
     exact fun p hp' => hp'.trans h1.2.1.1 h1.2.2
 
 /-- The class-set functions never panic and never run out of fuel, for `fuel ≥ 2·len + 2`
@@ -781,11 +869,11 @@ theorem classSet_all (fl : Flags) (hn : Bool) (fuel : Nat) : ClassSetIH fl hn fu
   induction fuel with
   | zero =>
     refine ⟨?_, ?_, ?_, ?_, ?_⟩
-    · intro neg st hp; have := hp.1; omega
-    · intro neg st r hp; have := hp.1; omega
-    · intro neg st r hp; have := hp.1; omega
-    · intro neg st r hp; have := hp.1; omega
-    · intro neg st hp; have := hp.1; omega
+    · intro st hp; have := hp.1; omega
+    · intro st r hp; have := hp.1; omega
+    · intro st r hp; have := hp.1; omega
+    · intro st r hp; have := hp.1; omega
+    · intro st hp; have := hp.1; omega
   | succ fuel ih =>
     exact ⟨classSetExpression_step fl hn fuel ih, classSetUnion_step fl hn fuel ih,
       classSetIntersection_step fl hn fuel ih, classSetSubtraction_step fl hn fuel ih,
